@@ -121,6 +121,7 @@ class Program:
         self.records = {}      # name -> record dict
         self.enums = {}        # name -> {enumerator: value}
         self.enum_of = {}      # enumerator -> (enum name, value)
+        self.enums_by_file = {}
         self.globals = {}      # name -> [global dicts] (definitions preferred)
         self._fkeys = set()
         self.files = set()
@@ -135,6 +136,7 @@ class Program:
         for e in tu["enums"]:
             d = {n: v for n, v in e["enumerators"]}
             self.enums.setdefault(e["name"], d)
+            self.enums_by_file.setdefault((e["name"], e["file"]), d)
             for n, v in e["enumerators"]:
                 lst = self.enum_of.setdefault(n, [])
                 ent = (e["name"], v, e["file"])
@@ -224,7 +226,7 @@ class Program:
             if required:
                 raise AnalysisBroken("anchor vanished: enumerator %s" % enumerator)
             return None
-        return self.enums[c[0][0]]
+        return self.enums_by_file.get((c[0][0], c[0][2])) or self.enums[c[0][0]]
 
     def enum(self, name, required=True):
         e = self.enums.get(name)
